@@ -494,11 +494,17 @@ def confirm_findings(run, cands, cases_by_name=None):
             fi.confirmed = None; fi.native = 'no case description for native replay'
             run.add_finding(fi); continue
         prof = w.get('profile', 'dev')
-        try:
-            okk, text = replay_witness(run, run.prog(prof), case, w, release=(prof == 'rel'))
-        except Exception as e:
-            import traceback
-            okk, text = None, 'replay failed: ' + ''.join(traceback.format_exception(type(e), e, e.__traceback__))[-1200:]
+        # the interpreter iterates hash maps in slot order, the real server in a per-process random order: a counterexample that depends on the
+        # order is genuine if SOME order shows it, so a differing transcript is retried against fresh server processes
+        tries = 1 + int(os.environ.get('VERIF_REPLAY_RETRIES', '5'))
+        for attempt in range(tries):
+            try:
+                okk, text = replay_witness(run, run.prog(prof), case, w, release=(prof == 'rel'))
+            except Exception as e:
+                import traceback
+                okk, text = None, 'replay failed: ' + ''.join(traceback.format_exception(type(e), e, e.__traceback__))[-1200:]
+            if okk is not False: break
+        if okk and attempt: text = f'(reproduced at attempt {attempt + 1}: depends on hash-map iteration order or timing) ' + text
         fi.confirmed = okk; fi.native = text
         fi.replay = dict(kind='socket', case=case, witness=w, profile=prof)
         run.add_finding(fi)
